@@ -231,13 +231,18 @@ def streams(rng, tier):
         TY["Atomic" + b] = (b.lower(), R[b.lower()], False)
     TY["NonZeroUsize"] = ("nz(u64)", R["u64"], True); TY["NonZeroIsize"] = ("nz(i64)", R["i64"], True)
     TY["AtomicUsize"] = ("u64", R["u64"], False); TY["AtomicIsize"] = ("i64", R["i64"], False)
+    # transparent std wrappers around an integer: the integer's own rules (a `Wrapping<T>` wraps in arithmetic, not when it is read)
+    for b in ("u8", "i8", "u16", "i16", "u32", "i32", "u64", "i64"):
+        TY[f"Wrapping<{b}>"] = (b, R[b], False)
+    TY["Wrapping<usize>"] = ("u64", R["u64"], False); TY["Wrapping<isize>"] = ("i64", R["i64"], False)
+    TY["Cell<u32>"] = ("u32", R["u32"], False); TY["Box<u64>"] = ("u64", R["u64"], False); TY["Box<Cell<Wrapping<i16>>>"] = ("i16", R["i16"], False)
     TY["char"] = ("char", (0, 0x10ffff), False)       # Decode for char: every head width; surrogates are not scalar values
     tops, tmops, texp = [], [], {}
     sel = [t for t in triples if t[2] < 300 or t[2] in set(gen.boundaries(64))] + rng.sample(triples, min(len(triples), 4000))
     for (neg, width, n) in sel:
         hd = gen.head(neg, n, width).hex()
         v = -1 - n if neg else n
-        for name in (TY if n < 70000 else rng.sample(sorted(TY), 8)):
+        for name in (TY if n < 70000 else rng.sample(sorted(TY), 12)):
             desc, (lo, hi), nz = TY[name]
             op = f"tdec {name} {hd}05 #:{neg},{width},{n}"
             tops.append(op); tmops.append(f"tdec {desc} {hd}05")
